@@ -231,6 +231,57 @@ theorem read_after_switch (bk : Bool) (t : It σ) (h : t.WF) (hd : t.dir ≠ bk)
     rw [fm] at this
     simpa [List.mem_flatMap] using this
 
+/-! ## appends between two pages of one read -/
+
+/-- **records appended behind a page boundary are read, in order, by the same cursor.** A cursor in any reachable state, running
+forward, is `Release`d (the end of a page: `crsr.commit`, `WaitNewData`); then the partitions grow: every source `s` becomes
+`f s`, where a stream that still had something keeps its head and what shows up in a stream that had ended is later than
+everything still undelivered (`It.GrowsTo`; an append of a late record to the in-memory source is one: `Leaf.append_growsTo`).
+The mixers are not told. Then the continued read (with further `Release` calls anywhere) is the attributed union of what the
+*grown* sources deliver alone: permutation, per-source order, ascending when every grown source is. This is what the reset of the
+`eof` flags in `Mixer.Release` is for (`cex_sticky_eof_hides_append`). -/
+theorem appends_between_pages (t : It σ) (h : t.WF) (hd : t.dir = false) (f : σ → σ)
+    (hf : ∀ s ∈ t.release.leaves, It.GrowsTo t.release.view s (f s))
+    (rel : Nat → Bool × Bool) (n : Nat) (hn : ((t.release.mapLeaves f).view).length < n) :
+    let t' := t.release.mapLeaves f
+    let read := t'.drainRel rel n 0
+    t'.WF ∧ t'.leaves = t.release.leaves.map f ∧
+    read.Perm (t'.leaves.flatMap view) ∧
+    (∀ s ∈ t'.leaves, (view s).Sublist read) ∧
+    ((∀ s ∈ t'.leaves, Ascending (view s)) → Ascending read) ∧
+    (∀ e ∈ read, ∃ s ∈ t'.leaves, e ∈ view s) := by
+  intro t' read
+  obtain ⟨_, rw', rd, _⟩ := It.release_spec t h
+  obtain ⟨gw, gd, _, _, _⟩ := It.mapLeaves_grow f t.release.view t.release rw' (It.release_Released t)
+    (rd.trans hd) (fun x hx => hx) hf
+  have R := read_any_state t' gw rel n hn
+  simp only [show t'.dir = false from gd] at R
+  refine ⟨gw, It.mapLeaves_leaves f _, R.1, R.2.1, ?_, R.2.2.2⟩
+  intro hs
+  have := R.2.2.1 (by intro s h; simpa only [ord_false, ord_true] using hs s h)
+  simpa only [ord_false, ord_true] using this
+
+/-- every mixer a `Release` leaves behind has no `eof` flag set and is not in the "both ended" state -/
+theorem release_resets (t : It σ) : t.release.Released := It.release_Released t
+
+/-- why `Release` resets the flags: partition 1 = `[1]`, partition 2 = `[5, 6]`; the first page read `1` and peeked (`eof1` is now
+set, source 2 selected). If the flag survived the page boundary (the first tree below: the state before `Release`), a record
+`7` appended to partition 1 is not delivered by the continued read; after `Release` (the second tree) it is. -/
+theorem cex_sticky_eof_hides_append :
+    let a : Leaf := ⟨1, [⟨1, 0⟩], 1, false⟩
+    let b : Leaf := ⟨2, [⟨5, 0⟩, ⟨6, 1⟩], 0, false⟩
+    let m : MixSt := { st := 2, eof1 := true, le2 := ⟨5, 0, 2⟩ }
+    let sticky : It Leaf := (It.mix m (.leaf a) (.leaf b)).modifyLeaf (Leaf.append ⟨7, 1⟩) 0
+    let released : It Leaf := (It.mix m (.leaf a) (.leaf b)).release.modifyLeaf (Leaf.append ⟨7, 1⟩) 0
+    (It.mix m (.leaf a) (.leaf b)).WF ∧
+    sticky.drain 5 = [⟨5, 0, 2⟩, ⟨6, 1, 2⟩] ∧
+    released.drain 5 = [⟨5, 0, 2⟩, ⟨6, 1, 2⟩, ⟨7, 1, 1⟩] := by
+  refine ⟨by simp [It.WF, It.view, It.dir, It.settled, LawfulSource.wf, LawfulSource.view, LawfulSource.dir,
+    LawfulSource.settled, Leaf.wf, Leaf.view, Leaf.settled, Leaf.ev, sel], ?_, ?_⟩ <;>
+  simp [It.drain, It.get, It.next, It.release, It.modifyLeaf, It.nleaves, MixSt.selectState, MixSt.fetch1, MixSt.fetch2,
+    MixSt.choose, MixSt.out, MixSt.testFunc, getEarliest, Source.get, Source.next, Source.release, Leaf.get, Leaf.next,
+    Leaf.release, Leaf.clamp, Leaf.append, Leaf.ev]
+
 /-- the in-memory leaf reports every event under its own tag line (with `multi_read`: every event of a merged read
 carries the tag line of the partition it is stored in) -/
 theorem leaf_attribution (l : Leaf) (e : Ev) (h : e ∈ view l) : e.tags = l.tags := by
